@@ -50,12 +50,45 @@ func parseFloatToken(s string) (float64, error) {
 	return f, nil
 }
 
+// sigDigits counts the significant digits of a printed number.
+func sigDigits(tok string) int {
+	m := tok
+	if k := strings.IndexAny(m, "eE"); k >= 0 {
+		m = m[:k]
+	}
+	m = strings.NewReplacer("-", "", "+", "", ".", "").Replace(m)
+	m = strings.TrimLeft(m, "0")
+	return len(m)
+}
+
+// blockSigDigits is the largest number of significant digits among the float-looking tokens of a DATA block.
+func blockSigDigits(vals []*Val) int {
+	mx := 0
+	var walk func(v *Val)
+	walk = func(v *Val) {
+		if v.K == 'n' && strings.ContainsAny(v.S, ".eE") {
+			if _, err := strconv.ParseFloat(v.S, 64); err == nil {
+				if s := sigDigits(v.S); s > mx {
+					mx = s
+				}
+			}
+		}
+		for _, k := range v.Kids {
+			walk(k)
+		}
+	}
+	for _, v := range vals {
+		walk(v)
+	}
+	return mx
+}
+
 // floatMatches decides whether the value the library returned is the number h5dump printed as tok.
 // h5dump prints with %g (6 significant digits) unless a format option was given, so equality is:
 // identical after parsing, or identical %g text, or relative difference <= 1e-6 (stated tolerance), or -
 // for tokens that show an explicit fixed precision (trailing zeros or more than 6 significant digits,
 // i.e. not %g output) - agreement within half a unit of the last printed digit.
-func floatMatches(got float64, tok string) (bool, error) {
+func floatMatches(got float64, tok string, blockSig int) (bool, error) {
 	e, err := parseFloatToken(tok)
 	if err != nil {
 		return false, err
@@ -71,6 +104,17 @@ func floatMatches(got float64, tok string) (bool, error) {
 	}
 	if strconv.FormatFloat(got, 'g', 6, 64) == tok {
 		return true, nil
+	}
+	// -m "%.Ng" dumps: the precision is the one evidenced by the tokens of the same DATA block, never
+	// looser than 4 significant digits
+	lo := blockSig
+	if lo < 4 {
+		lo = 4
+	}
+	for n := lo; n <= 17; n++ {
+		if n != 6 && strconv.FormatFloat(got, 'g', n, 64) == tok {
+			return true, nil
+		}
 	}
 	if math.Abs(got-e) <= 1e-6*math.Max(math.Abs(got), math.Abs(e)) {
 		return true, nil
@@ -147,6 +191,11 @@ func flattenLib(v any) ([]any, bool) {
 	return nil, false
 }
 
+type vctx struct {
+	ix  *Index
+	sig int // significant digits evidenced by the DATA block (0 = no float token)
+}
+
 type valueDiff struct {
 	kind   string // count | value
 	detail string
@@ -155,7 +204,8 @@ type valueDiff struct {
 // compareElem compares one library element with one DDL value under the DDL type t.
 // Returns ("", nil) when equal, a description when different, an errNotUnderstood when the expected side
 // cannot be interpreted.
-func compareElem(got any, want *Val, t *DType, ix *Index) (string, error) {
+func compareElem(got any, want *Val, t *DType, vc *vctx) (string, error) {
+	ix := vc.ix
 	t = ix.ResolveType(t)
 	switch t.Kind {
 	case "int":
@@ -196,7 +246,7 @@ func compareElem(got any, want *Val, t *DType, ix *Index) (string, error) {
 			}
 			return fmt.Sprintf("got %T %v for a float, h5dump %s", got, got, want.S), nil
 		}
-		ok, err := floatMatches(g, want.S)
+		ok, err := floatMatches(g, want.S, vc.sig)
 		if err != nil {
 			return "", err
 		}
@@ -234,7 +284,7 @@ func compareElem(got any, want *Val, t *DType, ix *Index) (string, error) {
 			mt := ix.ResolveType(mem.Type)
 			switch mt.Kind {
 			case "int", "float", "string", "vlstring", "compound":
-				d, err := compareElem(gv, want.Kids[i], mt, ix)
+				d, err := compareElem(gv, want.Kids[i], mt, vc)
 				if err != nil {
 					return "", err
 				}
@@ -298,6 +348,7 @@ func validateVal(v *Val, t *DType, ix *Index) error {
 
 // compareSeq compares a flat library result with the DDL values.
 func compareSeq(got []any, want []*Val, t *DType, ix *Index) (*valueDiff, error) {
+	vc := &vctx{ix: ix, sig: blockSigDigits(want)}
 	for _, w := range want {
 		if err := validateVal(w, t, ix); err != nil {
 			return nil, err
@@ -307,7 +358,7 @@ func compareSeq(got []any, want []*Val, t *DType, ix *Index) (*valueDiff, error)
 		return &valueDiff{"count", fmt.Sprintf("reader returned %d elements, h5dump lists %d", len(got), len(want))}, nil
 	}
 	for i := range got {
-		d, err := compareElem(got[i], want[i], t, ix)
+		d, err := compareElem(got[i], want[i], t, vc)
 		if err != nil {
 			return nil, err
 		}
